@@ -22,9 +22,15 @@ CHECKS = {
  "C06": dict(tech="stateful PBT (proptest) + differential probe ([accrue; op] vs [op]) + monotonicity/idempotence invariants",
    text="Same campaign; after every successful transacting instruction: last_update == clock, share values never decrease, and re-running the instruction from the same pre-state after an explicit accrue gives bit-identical bank totals / share values / fees / vaults / user shares; accrue twice at one timestamp is byte-identical.",
    ref="DESIGN.md §6 C06"),
+ "C09": dict(tech="PBT (proptest) over fabricated oracle accounts against the public price-adapter API + exact-rational oracle",
+   text="Pure-function half: every oracle kind (Pyth push, Switchboard pull, fixed, staked, Kamino/Drift/Solend exchange-rate variants) x prices/EMA/confidence/exponents over their integer ranges x publish times around the staleness boundary x max-age / max-confidence settings x authenticity faults (wrong key, owner, discriminator, truncated data, partial verification): a usable price only if authentic, fresh and confident; low <= p <= high with band = min(k*sigma, 5% p) within derived ulps; both outcomes observed on each boundary.",
+   ref="DESIGN.md §6 C09", note="Pure functions called natively with fabricated AccountInfos (no runtime). Instruction-level half (doctored oracle inside borrow/withdraw/liquidate/bankruptcy) is exercised by C04's stale-collateral cases and the campaign; exact-rational reference arithmetic."),
  "C16": dict(tech="stateful PBT (proptest) + structural invariants on raw account bytes",
    text="Same campaign; every account after every transaction: distinct banks, one side per bank, sorted slots, tag compatibility, position bounds, stable tags; close/transfer/disabled rules checked against pre/post snapshots.",
    ref="DESIGN.md §6 C16"),
+ "C20": dict(tech="PBT (proptest), overflow-directed generators, exact big-integer/rational oracle on the public conversion functions",
+   text="Kamino/Solend/Drift conversion and price-adjustment functions called directly: round trips never gain, Drift burn >= mint, adjusted price within derived truncation band of price x exact rate and monotone, fail-closed on overflow / zero divisors (never wrapped), staleness predicates at the slot/second boundary. The literal 'never exceeds price x exact rate' clause is violated by double flooring and recorded as two known findings (separate streams, so nothing else is masked).",
+   ref="DESIGN.md §6 C20", note="Pure functions; venue state structs fabricated with bytemuck; exact arithmetic with num-bigint."),
  "C17": dict(tech="stateful PBT (proptest) with boundary-biased limits/amounts + exact-rational cap oracle",
    text="Same campaign with limits drawn from {0, small, mid, unlimited} and amounts relative to remaining capacity: exact A*asv < deposit_limit after deposits, L*lsv < borrow_limit and A*asv >= L*lsv after borrows/withdrawals, and deposit_up_to_limit never fails with the capacity error (also after interest accrues inside the instruction).",
    ref="DESIGN.md §6 C17"),
